@@ -2,6 +2,8 @@ package rules
 
 import (
 	"fmt"
+	"go/token"
+	"go/types"
 	"strings"
 
 	"golang.org/x/tools/go/ssa"
@@ -15,7 +17,7 @@ func init() {
 		ID:    "C09",
 		Title: "Ordered results are globally sorted; limit/offset is a window of them",
 		Decides: "every merge-heap / batch-sort comparator on the ordered-query paths induces exactly the order it must (key, direction flag, tie-breaks), over every weak ordering of its operands: iter/sort containerHeap, stream/sidx blockCursorHeap, sidx QueryResponseHeap, trace sidxStreamHeap, model.StreamResultHeap, the part/block merge heaps of measure, stream, trace and sidx, the batch sorters, SeriesList; " +
-			"k-way mergers restore the heap (Fix/Pop) after advancing the top cursor before reading it again; in the distributed measure plan the limit handed to data nodes is offset+limit; the sidx cursor builder records a payload as seen only for elements inside the key range; the time window of an index-sorted stream batch offers every document to both its minimum and its maximum.",
+			"k-way mergers restore the heap (Fix/Pop) after advancing the top cursor before reading it again; in the distributed measure plan the limit handed to data nodes is offset+limit; the sidx cursor builder records a payload as seen only for elements inside the key range; the time window of an index-sorted stream batch offers every document to both its minimum and its maximum.; in the time-ordered stream scan the boundary of a growing group of overlapping parts is only ever raised (compared with its previous value, or max)",
 		NotDecided: "that each input cursor is itself sorted, duplicates, early termination, exactly-once delivery of secondary-index entries, the composition of per-node windows into the global window.",
 		Technique:  "finite-domain abstract interpretation of comparator syntax trees; CFG must-follow for heap discipline; SSA def-use of the pushed-down limit; guarded-call (seen only when in range); per-iteration must-test of sibling accumulators",
 		Run:        runC09,
@@ -101,6 +103,104 @@ func runC09(c *core.Ctx) {
 	if f := r.fn("c09.seen-only-in-range", sibX.pkg, "(*blockCursorBuilder).appendElement"); f != nil {
 		r.onlyWhenCall("c09.seen-only-in-range", f, call("(*"+sibX.pkg+".blockCursorBuilder).markSeen"), "(*"+sibX.pkg+".blockCursorBuilder).keyInRange", true, nil,
 			"an element outside the key range must not be recorded as seen: a later in-range element carrying the same payload would be dropped as its duplicate, so a matching entry is not returned")
+	}
+	// time-ordered stream scan: a group of overlapping parts is closed by a boundary that is the running MAXIMUM
+	// of the group's max timestamps; while a part joins an existing group the boundary is only ever raised
+	if f := r.fn("c09.group-boundary-running-max", sibS.pkg, "getDisjointParts"); f != nil {
+		rule := "c09.group-boundary-running-max"
+		construct := ssax.FuncName(f) + ": the boundary of a growing group is only raised (guarded by a comparison with itself)"
+		var pg, pb *ssa.Phi
+		for _, b := range f.Blocks {
+			if !isLoopHeader(b) {
+				continue
+			}
+			for _, in := range b.Instrs {
+				if p, ok := in.(*ssa.Phi); ok {
+					if _, isSl := p.Type().Underlying().(*types.Slice); isSl && strings.HasPrefix(p.Type().String(), "[]*") && strings.HasSuffix(p.Type().String(), ".part") && pg == nil {
+						pg = p
+					}
+					if bt, isB := p.Type().Underlying().(*types.Basic); isB && bt.Kind() == types.Int64 && pb == nil {
+						pb = p
+					}
+				}
+			}
+		}
+		if pg == nil || pb == nil || pg.Block() != pb.Block() {
+			r.Undecide(rule, construct, r.fpos(f), "group / boundary loop variables not found in one loop header")
+		} else {
+			h := pg.Block()
+			bad := ""
+			n := iterationPaths(h, map[ssa.Value]bool{pg: true, pb: true}, func(path []*ssa.BasicBlock, resolve func(ssa.Value) ssa.Value) {
+				if bad != "" {
+					return
+				}
+				var eg, eb ssa.Value
+				for j, q := range h.Preds {
+					if q == path[len(path)-2] {
+						eg, eb = resolve(pg.Edges[j]), resolve(pb.Edges[j])
+					}
+				}
+				app, ok := eg.(*ssa.Call)
+				if !ok {
+					return
+				}
+				if bi, isB := app.Call.Value.(*ssa.Builtin); !isB || bi.Name() != "append" || resolve(app.Call.Args[0]) != ssa.Value(pg) {
+					return // the group was restarted on this path
+				}
+				if eb == ssa.Value(pb) {
+					return // boundary unchanged
+				}
+				guarded, fresh := false, false
+				for i := 0; i+1 < len(path); i++ {
+					iff, ok := path[i].Instrs[len(path[i].Instrs)-1].(*ssa.If)
+					if !ok {
+						continue
+					}
+					bo, ok := iff.Cond.(*ssa.BinOp)
+					if !ok {
+						continue
+					}
+					taken := 0
+					if path[i].Succs[1] == path[i+1] {
+						taken = 1
+					}
+					// len(group) == 0 taken true: the "group" is empty, this part starts it
+					if c, isC := bo.X.(*ssa.Call); isC && bo.Op == token.EQL && taken == 0 {
+						if bi, isB := c.Call.Value.(*ssa.Builtin); isB && bi.Name() == "len" && c.Call.Args[0] == ssa.Value(pg) {
+							fresh = true
+						}
+					}
+					x, y := bo.X, bo.Y
+					switch {
+					case x == eb && y == ssa.Value(pb) && (bo.Op == token.GTR || bo.Op == token.GEQ) && taken == 0,
+						x == ssa.Value(pb) && y == eb && (bo.Op == token.LSS || bo.Op == token.LEQ) && taken == 0,
+						x == eb && y == ssa.Value(pb) && (bo.Op == token.LEQ || bo.Op == token.LSS) && taken == 1,
+						x == ssa.Value(pb) && y == eb && (bo.Op == token.GEQ || bo.Op == token.GTR) && taken == 1:
+						guarded = true
+					}
+				}
+				if c, isC := eb.(*ssa.Call); isC {
+					if bi, isB := c.Call.Value.(*ssa.Builtin); isB && bi.Name() == "max" {
+						guarded = true
+					}
+				}
+				if !guarded && !fresh {
+					var idx []int
+					for _, b := range path {
+						idx = append(idx, b.Index)
+					}
+					bad = fmt.Sprintf("on the iteration path %s a part joins the current group and the boundary is overwritten without being compared with its previous value", blocksStr(idx))
+				}
+			})
+			switch {
+			case bad != "":
+				r.Violate(rule, construct, r.pos(pb), bad+": a part nested inside an earlier, wider part lowers the boundary, a later part that still overlaps the group is put into the next group, and the time-ordered scan emits rows out of order")
+			case n == 0:
+				r.Undecide(rule, construct, r.fpos(f), "no iteration path")
+			default:
+				r.Hold(rule, construct, r.pos(pb), fmt.Sprintf("%d iteration paths", n))
+			}
+		}
 	}
 	// the time window of an index-sorted batch: min and max are independent running extrema
 	if f := r.fn("c09.sorted-batch-window", sibS.pkg, "(*idxResult).loadSortingData"); f != nil {
